@@ -31,6 +31,7 @@ type C20Case struct {
 	BufCap int         `json:"bufcap,omitempty"` // Connection.Buffer: capacity of the supplied buffer (<= L)
 	Blocks []BlockSpec `json:"blocks"`
 	Plan   Plan        `json:"plan"`
+	Raw    stats.B     `json:"raw,omitempty"` // when set, the stream is exactly this (cases found by the native fuzzer)
 }
 
 func (c C20Case) limit() int {
@@ -131,6 +132,9 @@ func (b BlockSpec) render() string {
 }
 
 func checkC20(t *testing.T, c C20Case) *stats.Verdict {
+	if c.Raw != "" {
+		return checkC20Raw(t, c, []byte(c.Raw))
+	}
 	var sb strings.Builder
 	for _, b := range c.Blocks {
 		sb.WriteString(b.render())
